@@ -183,6 +183,35 @@ Theorem C05_remove_item : forall cs, classes_ok cs -> forall root p f i x root',
         /\ node_toks root = pre ++ Mold ++ post /\ node_toks root' = pre ++ [] ++ post)
   /\ (forall t, In t (leaves root') -> In t (leaves root)).
 Proof. exact remove_item_ok. Qed.
+(* an item that touches the item after it (`1 "s"2`, `#a ^l#b`; `keep` = _touches, evaluated by remove_item on the
+   root's tokens: rep_touches) leaves WITHOUT the blanks in front of it: they stay between the previous unit and the
+   next item. Without the touch they leave with the item. *)
+Theorem C05_remove_item_keeps_gap : forall rs rt ph items i x a xa b,
+  nth_error items i = Some x ->
+  after_unit rt (prev_unit ph items i) = Some a -> first_off rt (node_toks x) = Some xa ->
+  after_unit rt (node_toks x) = Some b ->
+  S i < length items -> a < xa -> forallb blank_tk (slice rt a xa) = true ->
+  rep_remove_A true rs rt ph items i
+    = Some (x, SRep rs (firstn a rt ++ slice rt a xa ++ skipn b rt) ph (firstn i items ++ skipn (S i) items))
+  /\ rep_remove_A false rs rt ph items i
+    = Some (x, SRep rs (firstn a rt ++ skipn b rt) ph (firstn i items ++ skipn (S i) items))
+  /\ (i <> 0 -> forall keep, rep_remove keep rs rt ph items i = rep_remove_A keep rs rt ph items i).
+Proof. exact remove_item_keeps_gap. Qed.
+Example C05_remove_item_keeps_gap_example :
+  hwf_b all_classes ex_glued_custom = true
+  /\ rep_touches ex_glued_custom ex_glued_custom "_values" 1%nat = true
+  /\ rep_touches ex_glued_custom ex_glued_custom "_values" 2%nat = false
+  /\ match remove_item ex_glued_custom [] "_values" 1%nat with
+     | Some (x, r) => hwf_b all_classes r = true /\ map k_text (node_toks x) = ["""s"""]
+                      /\ map k_text (node_toks r) = ["2000-01-01"; " "; "custom"; " "; """x"""; ""; " "; "1"; " "; "2"; " "; "3"; ""; ""]
+     | None => False
+     end
+  /\ match remove_item ex_glued_custom [] "_values" 2%nat with
+     | Some (x, r) => hwf_b all_classes r = true
+                      /\ map k_text (node_toks r) = ["2000-01-01"; " "; "custom"; " "; """x"""; ""; " "; "1"; " "; """s"""; " "; "3"; ""; ""]
+     | None => False
+     end.
+Proof. exact ex_glued_hyps. Qed.
 (* pop(): the removed item, re-attached to a fresh store holding exactly its tokens, is a complete,
    self-contained well-formed tree; the tree it left stays well-formed *)
 Theorem C05_pop_selfcontained : forall cs, classes_ok cs -> forall root p f i x root' fresh_store,
